@@ -212,6 +212,72 @@ theorem cell_exact (view : NDArr α) (axes idx : List Nat) (hb : InBounds view.s
   · intro ri _
     exact fullIdx_keep rank axes ki ri (by simp [ki, keep])
 
+/-- the cell at ANY in-bounds index of the kept axes -/
+theorem cell_at (view : NDArr α) (axes ki : List Nat)
+    (hbk : InBounds ((keepAxes view.shape.length axes).map (fun a => view.shape.getD a 0)) ki) :
+    (reduceGroups view axes).get ki =
+      (cartesian ((redAxes view.shape.length axes).map (fun a => List.range (view.shape.getD a 0)))).map
+        (fun ri => view.get (fullIdx view.shape.length axes ki ri)) := by
+  let keep := keepAxes view.shape.length axes
+  have h1 : (reduceGroups view axes).flat[ravelC (reduceGroups view axes).shape ki]? =
+      some ((cartesian ((redAxes view.shape.length axes).map (fun a => List.range (view.shape.getD a 0)))).map
+        (fun ri => view.get (fullIdx view.shape.length axes ki ri))) := by
+    show (List.map _ (cartesian (keep.map (fun a => List.range (view.shape.getD a 0)))))[ravelC (keep.map (fun a => view.shape.getD a 0)) ki]? = _
+    have e1 : (keep.map (fun a => List.range (view.shape.getD a 0))).map List.length = keep.map (fun a => view.shape.getD a 0) := by
+      simp [List.map_map, Function.comp_def]
+    have e2 : keep.map (fun a => List.range (view.shape.getD a 0)) = (keep.map (fun a => view.shape.getD a 0)).map List.range := by
+      simp [List.map_map, Function.comp_def]
+    have := cartesian_get (keep.map (fun a => List.range (view.shape.getD a 0))) ki (by rw [e1]; exact hbk)
+    rw [e1] at this
+    rw [List.getElem?_map, this, e2, pickIdx_ranges _ ki hbk]
+    rfl
+  unfold NDArr.get
+  rw [List.getD_eq_getElem?_getD, h1]
+  rfl
+
+/-- the indices of the reduced axes that a cell runs over are exactly the in-bounds ones -/
+theorem mem_redIdx (shape : List Nat) (red ri : List Nat) :
+    ri ∈ cartesian (red.map (fun a => List.range (shape.getD a 0))) ↔ InBounds (red.map (fun a => shape.getD a 0)) ri := by
+  have e2 : red.map (fun a => List.range (shape.getD a 0)) = (red.map (fun a => shape.getD a 0)).map List.range := by
+    simp [List.map_map, Function.comp_def]
+  rw [mem_cartesian, e2]
+  exact ⟨inBounds_of_allMem_ranges _ _, allMem_ranges _ _⟩
+
+/-- an index assembled from in-bounds kept and reduced parts is in bounds of the view -/
+theorem fullIdx_inBounds (shape axes ki ri : List Nat)
+    (hk : InBounds ((keepAxes shape.length axes).map (fun a => shape.getD a 0)) ki)
+    (hr : InBounds ((redAxes shape.length axes).map (fun a => shape.getD a 0)) ri) :
+    InBounds shape (fullIdx shape.length axes ki ri) := by
+  have hkl := Usid.Translate.inBounds_length _ _ hk
+  have hrl := Usid.Translate.inBounds_length _ _ hr
+  apply Usid.Reshape.inBounds_of_forall
+  · simp [fullIdx]
+  · intro a h1 h2
+    simp only [fullIdx, List.getElem_map, List.getElem_range]
+    by_cases hc : axes.contains a = true
+    · have hm : a ∈ redAxes shape.length axes := List.mem_filter.mpr ⟨List.mem_range.mpr h1, hc⟩
+      have hlt := List.idxOf_lt_length_of_mem hm
+      simp only [hc, if_true]
+      have := Usid.Translate.inBounds_getD _ _ ((redAxes shape.length axes).idxOf a) hr (by simpa using hlt)
+      rw [List.getD_eq_getElem?_getD (l := (redAxes shape.length axes).map _), List.getElem?_map,
+        List.getElem?_eq_getElem hlt] at this
+      simp only [Option.map_some, Option.getD_some, List.getElem_idxOf hlt] at this
+      have e : shape.getD a 0 = shape[a] := by
+        rw [List.getD_eq_getElem?_getD, List.getElem?_eq_getElem h1]; rfl
+      rw [e] at this
+      simpa [List.getD_eq_getElem?_getD] using this
+    · have hm : a ∈ keepAxes shape.length axes := List.mem_filter.mpr ⟨List.mem_range.mpr h1, by simpa using hc⟩
+      have hlt := List.idxOf_lt_length_of_mem hm
+      simp only [hc, Bool.false_eq_true, if_false]
+      have := Usid.Translate.inBounds_getD _ _ ((keepAxes shape.length axes).idxOf a) hk (by simpa using hlt)
+      rw [List.getD_eq_getElem?_getD (l := (keepAxes shape.length axes).map _), List.getElem?_map,
+        List.getElem?_eq_getElem hlt] at this
+      simp only [Option.map_some, Option.getD_some, List.getElem_idxOf hlt] at this
+      have e : shape.getD a 0 = shape[a] := by
+        rw [List.getD_eq_getElem?_getD, List.getElem?_eq_getElem h1]; rfl
+      rw [e] at this
+      simpa [List.getD_eq_getElem?_getD] using this
+
 /-! ### the dataset written by `reduce(to_hdf5=True)` -/
 open Usid.Grid Usid.C09 Usid.ReduceAnc Usid.Relabel Usid.Reshape Usid.Dims in
 /-- **On file.**  For every pair of regular-grid sides (any sizes, any storage permutation), distinct labels,
@@ -557,6 +623,178 @@ theorem file_form_spec_reduced (view : NDArr α) (pS pR sS sR : List Nat) (plabs
   · intro r hr
     rw [hlenP'] at hRget
     exact hRget r hr
+
+open Usid.Grid Usid.C09 Usid.ReduceAnc Usid.Relabel Usid.Reshape Usid.Dims in
+/-- the kept part of a file-order index, side by side -/
+theorem kept_of_full (plabs slabs dims : List String) (hnd : (plabs ++ slabs).Nodup)
+    (hdims : ∀ d ∈ dims, d ∈ plabs ++ slabs) (iP iS : List Nat) (hl : iP.length = plabs.length) :
+    (keepAxes (plabs.length + slabs.length) (dims.map (fun d => (plabs ++ slabs).findIdx (· == d)))).map
+        (fun a => (iP ++ iS).getD a 0) =
+      (keptOf plabs dims).map (fun d => iP.getD d 0) ++ (keptOf slabs dims).map (fun d => iS.getD d 0) := by
+  unfold keepAxes
+  rw [Usid.ReduceFile.keep_axes plabs slabs dims hnd hdims, List.map_append, List.map_map]
+  congr 1
+  · apply List.map_congr_left
+    intro d hd
+    have : d < plabs.length := List.mem_range.mp (List.mem_filter.mp hd).1
+    exact getD_append_lt iP iS d 0 (by omega)
+  · apply List.map_congr_left
+    intro d _
+    simp only [Function.comp]
+    rw [← hl]
+    exact getD_append_shift iP iS d 0
+
+open Usid.Grid Usid.C09 Usid.ReduceAnc Usid.Relabel Usid.Reshape Usid.Dims in
+/-- shape of the reduced array of a file-order view -/
+theorem reduced_shape (view : NDArr α) (pS sS : List Nat) (plabs slabs dims : List String)
+    (hlp : plabs.length = pS.length) (hls : slabs.length = sS.length)
+    (hnd : (plabs ++ slabs).Nodup) (hshape : view.shape = pS ++ sS) (hdims : ∀ d ∈ dims, d ∈ plabs ++ slabs) :
+    (keepAxes view.shape.length (dims.map (fun d => (plabs ++ slabs).findIdx (· == d)))).map (fun a => view.shape.getD a 0) =
+      (keptOf plabs dims).map (sizeFn pS) ++ (keptOf slabs dims).map (sizeFn sS) := by
+  have hKPlt : ∀ d ∈ keptOf plabs dims, d < pS.length := by
+    intro d hd
+    have := List.mem_range.mp (List.mem_filter.mp hd).1
+    omega
+  have hKSlt : ∀ d ∈ keptOf slabs dims, d < sS.length := by
+    intro d hd
+    have := List.mem_range.mp (List.mem_filter.mp hd).1
+    omega
+  unfold keepAxes
+  rw [hshape, List.length_append, ← hlp, ← hls, Usid.ReduceFile.keep_axes plabs slabs dims hnd hdims, List.map_append, List.map_map]
+  congr 1
+  · apply List.map_congr_left
+    intro d hd
+    have hdk := hKPlt d hd
+    simp [sizeFn, List.getD_eq_getElem?_getD, List.getElem?_append_left hdk, List.getElem?_eq_getElem hdk]
+  · apply List.map_congr_left
+    intro d hd
+    have hdk := hKSlt d hd
+    simp only [Function.comp]
+    rw [hlp]
+    simp [sizeFn, List.getD_eq_getElem?_getD, List.getElem?_append_right, List.getElem?_eq_getElem hdk]
+
+open Usid.Grid Usid.C09 Usid.ReduceAnc Usid.Relabel Usid.Reshape Usid.Dims in
+theorem coords_getD (sizes rate : List Nat) (r d : Nat) (hd : d < sizes.length) :
+    (coords sizes rate r (List.range sizes.length)).getD d 0 = gridIdx (sizeFn sizes) rate r d := by
+  simp [coords, List.getD_eq_getElem?_getD, List.getElem?_map, List.getElem?_range hd]
+
+open Usid.Grid Usid.C09 Usid.ReduceAnc Usid.Relabel Usid.Reshape Usid.Dims in
+/-- **On file, end to end: every written element is the reduction of EXACTLY the source elements sharing its
+    remaining coordinates.**  `mainget r c` stands for `main[r, c]`; `view` is any array that is the coordinate
+    map of it (what `reshape_to_n_dims` returns: C01 `coordinate_map`).  Under the hypotheses of `file_form`,
+    for every row r' and column c' of the written dataset, with coordinates read from the NEW ancillaries:
+    (1) every source element `main[r, c]` whose remaining coordinates are those of (r', c') is in the cell that
+    the reduction function is applied to; (2) every member of the cell is such an element; (3) the cell has
+    exactly one member per combination of indices of the reduced dimensions - none missing, none twice. -/
+theorem file_cells_exact (view : NDArr α) (mainget : Nat → Nat → α) (pS pR sS sR : List Nat)
+    (plabs slabs punits sunits : List String) (pV sV : List (List Int)) (dims : List String)
+    (hP : ValidGrid pS pR) (hS : ValidGrid sS sR)
+    (hlp : plabs.length = pS.length) (hls : slabs.length = sS.length)
+    (hup : punits.length = pS.length) (hus : sunits.length = sS.length)
+    (hnd : (plabs ++ slabs).Nodup) (hshape : view.shape = pS ++ sS)
+    (hne : dims ≠ []) (hdims : ∀ d ∈ dims, d ∈ plabs ++ slabs)
+    (p0 : Nat) (hp0 : p0 ∈ keptOf plabs dims) (s0 : Nat) (hs0 : s0 ∈ keptOf slabs dims)
+    (hkP : (keptOf plabs dims).length ≤
+      npoints (sizeFn ((keptOf plabs dims).map (sizeFn pS))) (rateOf pR (keptOf plabs dims)))
+    (hkS : (keptOf slabs dims).length ≤
+      npoints (sizeFn ((keptOf slabs dims).map (sizeFn sS))) (rateOf sR (keptOf slabs dims)))
+    (hview : ∀ r c, r < npoints (sizeFn pS) pR → c < npoints (sizeFn sS) sR →
+      view.get (coords pS pR r (List.range pS.length) ++ coords sS sR c (List.range sS.length)) = mainget r c) :
+    let KP := keptOf plabs dims
+    let KS := keptOf slabs dims
+    let pS' := KP.map (sizeFn pS)
+    let pR' := rateOf pR KP
+    let sS' := KS.map (sizeFn sS)
+    let sR' := rateOf sR KS
+    let axes := dims.map (fun d => (plabs ++ slabs).findIdx (· == d))
+    let keptP := fun r => KP.map (fun d => gridIdx (sizeFn pS) pR r d)
+    let keptS := fun c => KS.map (fun d => gridIdx (sizeFn sS) sR c d)
+    ∃ res, reduceToFile view (plabs ++ slabs) (sideK pS pR plabs punits pV) (sideK sS sR slabs sunits sV) dims = .ok res ∧
+      ∀ r' c', r' < npoints (sizeFn pS') pR' → c' < npoints (sizeFn sS') sR' →
+        (∀ r c, r < npoints (sizeFn pS) pR → c < npoints (sizeFn sS) sR →
+          keptP r = coords pS' pR' r' (List.range KP.length) → keptS c = coords sS' sR' c' (List.range KS.length) →
+          mainget r c ∈ res.data.get [r', c']) ∧
+        (∀ x ∈ res.data.get [r', c'], ∃ r c, r < npoints (sizeFn pS) pR ∧ c < npoints (sizeFn sS) sR ∧
+          keptP r = coords pS' pR' r' (List.range KP.length) ∧ keptS c = coords sS' sR' c' (List.range KS.length) ∧
+          x = mainget r c) ∧
+        (res.data.get [r', c']).length =
+          ((redAxes view.shape.length axes).map (fun a => view.shape.getD a 0)).prod := by
+  intro KP KS pS' pR' sS' sR' axes keptP keptS
+  obtain ⟨res, hres, _, _, hP', hS', _, hget⟩ := file_form view pS pR sS sR plabs slabs punits sunits pV sV dims
+    hP hS hlp hls hup hus hnd hshape hne hdims p0 hp0 s0 hs0 hkP hkS
+  refine ⟨res, hres, ?_⟩
+  intro r' c' hr' hc'
+  have hrank : view.shape.length = plabs.length + slabs.length := by rw [hshape, List.length_append, hlp, hls]
+  have hlenP' : pS'.length = KP.length := by simp [pS']
+  have hlenS' : sS'.length = KS.length := by simp [sS']
+  -- the index of the kept axes that addresses the cell
+  have hkshape := reduced_shape view pS sS plabs slabs dims hlp hls hnd hshape hdims
+  have hbP := coords_inBounds pS' pR' hP' r'
+  have hbS := coords_inBounds sS' sR' hS' c'
+  rw [hlenP'] at hbP
+  rw [hlenS'] at hbS
+  have hki : InBounds ((keepAxes view.shape.length axes).map (fun a => view.shape.getD a 0))
+      (coords pS' pR' r' (List.range KP.length) ++ coords sS' sR' c' (List.range KS.length)) := by
+    rw [hkshape]; exact inBounds_append _ _ _ _ hbP hbS
+  have hcell : res.data.get [r', c'] =
+      (cartesian ((redAxes view.shape.length axes).map (fun a => List.range (view.shape.getD a 0)))).map
+        (fun ri => view.get (fullIdx view.shape.length axes
+          (coords pS' pR' r' (List.range KP.length) ++ coords sS' sR' c' (List.range KS.length)) ri)) := by
+    rw [hget r' c' hr' hc']
+    exact cell_at view axes _ hki
+  -- the kept part of the file-order index of (r, c)
+  have hkept : ∀ r c, (keepAxes view.shape.length axes).map
+      (fun a => (coords pS pR r (List.range pS.length) ++ coords sS sR c (List.range sS.length)).getD a 0) =
+      keptP r ++ keptS c := by
+    intro r c
+    rw [hrank, kept_of_full plabs slabs dims hnd hdims _ _ (by simp [coords, hlp])]
+    congr 1
+    · apply List.map_congr_left
+      intro d hd
+      have : d < pS.length := by
+        have := List.mem_range.mp (List.mem_filter.mp hd).1; omega
+      exact coords_getD pS pR r d this
+    · apply List.map_congr_left
+      intro d hd
+      have : d < sS.length := by
+        have := List.mem_range.mp (List.mem_filter.mp hd).1; omega
+      exact coords_getD sS sR c d this
+  refine ⟨?_, ?_, ?_⟩
+  · intro r c hr hc hkp hks
+    have hb : InBounds view.shape (coords pS pR r (List.range pS.length) ++ coords sS sR c (List.range sS.length)) := by
+      rw [hshape]; exact inBounds_append _ _ _ _ (coords_inBounds pS pR hP r) (coords_inBounds sS sR hS c)
+    have hmem := (cell_exact view axes _ hb).2.1
+    unfold keepAxes redAxes at hmem
+    have hk' := hkept r c
+    unfold keepAxes at hk'
+    rw [hk', hkp, hks, hview r c hr hc] at hmem
+    rw [hcell]
+    exact hmem
+  · intro x hx
+    rw [hcell] at hx
+    obtain ⟨ri, hri, rfl⟩ := List.mem_map.mp hx
+    have hrib := (mem_redIdx view.shape _ ri).mp hri
+    have hfb := fullIdx_inBounds view.shape axes _ ri hki hrib
+    have hfb' : InBounds (pS ++ sS) (fullIdx view.shape.length axes
+        (coords pS' pR' r' (List.range KP.length) ++ coords sS' sR' c' (List.range KS.length)) ri) := by
+      rw [← hshape]; exact hfb
+    obtain ⟨iP, iS, hsplit, hbiP, hbiS⟩ := Usid.C10.inBounds_split pS sS _ hfb'
+    obtain ⟨r, hr, hcr⟩ := coords_surj pS pR hP iP hbiP
+    obtain ⟨c, hc, hcc⟩ := coords_surj sS sR hS iS hbiS
+    have hkeep := fullIdx_keep view.shape.length axes
+      (coords pS' pR' r' (List.range KP.length) ++ coords sS' sR' c' (List.range KS.length)) ri
+      (by rw [← Usid.Translate.inBounds_length _ _ hki]; simp)
+    have hk' := hkept r c
+    rw [hcr, hcc, ← hsplit] at hk'
+    rw [hkeep] at hk'
+    -- split the equality of the two concatenations at the (equal) lengths of their first halves
+    have hl1 : (coords pS' pR' r' (List.range KP.length)).length = (keptP r).length := by simp [coords, keptP]
+    have hsp := List.append_inj hk' hl1
+    refine ⟨r, c, hr, hc, hsp.1.symm, hsp.2.symm, ?_⟩
+    rw [hsplit, ← hcr, ← hcc]
+    exact hview r c hr hc
+  · rw [hcell, List.length_map, cartesian_length]
+    simp [List.map_map, Function.comp_def]
 
 /-- the hypotheses of `file_form` are satisfiable: a 2 x 3 position grid stored slowest first, a 2 x 2
     spectroscopic grid, reducing the second position dimension -/
